@@ -18,18 +18,39 @@ const FACTOR: usize = 8;
 
 pub fn run(c: &mut Ctx) {
     c.run_scenarios(|c, idx, rng| {
+        // rarely: a table whose element storage exceeds 16 MiB, churned long enough to saturate it several times
+        if crate::util::mix(idx) % 211 == 3 && !c.is_miri() {
+            c.extra.insert("large".into(), "1".into());
+            for_coll!("map:L200xB1", scenario(c, idx, rng, "map:L200xB1"));
+            c.extra.remove("large");
+            return;
+        }
         let name = C13_COLLS[(crate::util::mix(idx) % C13_COLLS.len() as u64) as usize];
         for_coll!(name, scenario(c, idx, rng, name));
     });
 }
 
 pub fn scenario<C: Coll>(c: &mut Ctx, _idx: u64, rng: &mut Rng, name: &str) {
-    let plan = pick_plan(rng);
+    let large = c.xarg("large").is_some();
+    let plan = if large { *rng.pick(&[crate::plan::Plan::Ident, crate::plan::Plan::Mixed]) } else { pick_plan(rng) };
     let bh = PlanBH::new(plan, rng.next());
     let space = C::id_space();
-    let n = (*rng.pick(&[1usize, 3, 7, 8, 14, 28, 100, 1000])).min(space as usize / 2).max(1);
-    let pattern = PATTERNS[rng.usize_below(PATTERNS.len())];
-    let steps: usize = if c.is_miri() { 300 } else if c.thorough() { 200_000 } else { *rng.pick(&[4_000usize, 20_000]) };
+    let n = if large { 60_000 } else { (*rng.pick(&[1usize, 3, 7, 8, 14, 28, 100, 1000])).min(space as usize / 2).max(1) };
+    let pattern = if large { "fifo" } else { PATTERNS[rng.usize_below(PATTERNS.len())] };
+    let steps: usize = if large {
+        if c.thorough() { 3_000_000 } else { 700_000 }
+    } else if c.is_miri() {
+        300
+    } else if c.thorough() {
+        200_000
+    } else {
+        *rng.pick(&[4_000usize, 20_000])
+    };
+    // the bound: 8x for small tables (minimum table sizes dominate), 4x (the bound derived from the growth policy) for large ones
+    let factor = if n >= 1000 { 4 } else { FACTOR };
+    if large {
+        c.bump("large_storage_scenarios");
+    }
     let mut d = Json::obj();
     d.set("collection", Json::s(name));
     d.set("plan", Json::s(plan.name()));
@@ -77,7 +98,7 @@ pub fn scenario<C: Coll>(c: &mut Ctx, _idx: u64, rng: &mut Rng, name: &str) {
             }
         } else {
             let id = if pattern == "toggle" { (n as u32).min(space - 1) } else { fresh_key(&mut next_id) };
-            if live.contains(&id) {
+            if !large && live.contains(&id) {
                 continue;
             }
             col.put(id, step as u16);
@@ -94,17 +115,18 @@ pub fn scenario<C: Coll>(c: &mut Ctx, _idx: u64, rng: &mut Rng, name: &str) {
         // ---- bounded memory, observed at every step ----
         let bytes = col.alloc_size();
         peak_bytes = peak_bytes.max(bytes);
-        if fresh_bytes > 0 && bytes > FACTOR * fresh_bytes {
+        if fresh_bytes > 0 && bytes > factor * fresh_bytes {
             let dmp = col.dump();
             crate::viol!(
                 "{}: step {}: the allocation is {} bytes ({} buckets) for at most {} live elements; a fresh with_capacity({}) takes {} bytes ({} buckets): growth is not bounded by {}x",
-                what, step, bytes, dmp.bucket_mask + 1, n, n, fresh_bytes, fresh_buckets, FACTOR
+                what, step, bytes, dmp.bucket_mask + 1, n, n, fresh_bytes, fresh_buckets, factor
             );
             return;
         }
-        if step % 97 == 0 || step + 1 == steps {
+        let every = if large { 20_011 } else { 97 };
+        if step % every == 0 || step + 1 == steps {
             let f = col.validate(&what);
-            if f.buckets > FACTOR * fresh_buckets {
+            if f.buckets > factor * fresh_buckets {
                 crate::viol!("{}: step {}: {} buckets for at most {} live elements (fresh table: {} buckets)", what, step, f.buckets, n, fresh_buckets);
                 return;
             }
@@ -115,7 +137,7 @@ pub fn scenario<C: Coll>(c: &mut Ctx, _idx: u64, rng: &mut Rng, name: &str) {
             c.max("max_buckets", f.buckets as u64);
             // ---- termination: a lookup of an absent key makes a bounded number of Eq calls ----
             let absent = (next_id.wrapping_add(7 + step as u32)) % space;
-            if !live.contains(&absent) {
+            if large || !live.contains(&absent) {
                 let e0 = fuse::count(Class::Eq);
                 let found = col.has(absent);
                 let calls = fuse::count(Class::Eq) - e0;
